@@ -14,7 +14,7 @@ for d in sorted(glob.glob(os.path.join(V, "seeded", "C*_m*"))):
     for f in sorted(glob.glob(os.path.join(V, ".work", "seed_%s_*.txt" % sid))):
         prop = f.rsplit("_", 1)[1][:-4]
         txt = open(f).read()
-        summ = [l for l in txt.split("\n") if re.match(r"C\d\d quick:", l)]
+        summ = [l for l in txt.split("\n") if re.match(r"C\d\d (quick|thorough):", l)]
         viol = sorted({re.sub(r"__\w+\.json", "", l.split("replay=")[1].split("/")[-1]) for l in txt.split("\n") if l.startswith("VIOLATION")})
         inc = [l for l in txt.split("\n") if l.startswith("INCONCLUSIVE")]
         runs.append({"check": prop, "summary": summ[-1] if summ else "", "violations_in": viol, "inconclusive": len(inc)})
